@@ -70,14 +70,14 @@ type agReq struct {
 }
 
 type agObs struct {
-	Reqs     []agReq
-	Rets     []error
-	Retries  []int // OnRetry calls per Connect call
-	Events   []obsEvent
-	TErrs    map[int]error // by request index
-	Runaway  bool
-	Panic    string
-	GetBody  int
+	Reqs    []agReq
+	Rets    []error
+	Retries []int // OnRetry calls per Connect call
+	Events  []obsEvent
+	TErrs   map[int]error // by request index
+	Runaway bool
+	Panic   string
+	GetBody int
 }
 
 func runAgain(t *testing.T, sc *agScript) (obs *agObs) {
